@@ -39,6 +39,34 @@ def run_encode(ctx, case):
         ok, w = ctx.must(lambda: specs.lib_write(blk), f"{t}/encode", f"encoding a valid {t} block")
         if ok and w != ref:
             _bytes_differ(ctx, t, w, ref, spec)
+        if ok and t in specs.RLE_TYPES and codec.items(spec) and "boundary" not in case:
+            # the same object, after its size was asked for and it was written once, gets another gap pattern IN PLACE (through the arrays
+            # it exposes): what it writes then is the layout encoding of what it holds then
+            import copy
+
+            spec2 = copy.deepcopy(spec)
+            its_lib = list(blk) if t != "platData" else [p for _, p in blk]
+            try:
+                _ = blk.nBytes
+                for it_spec, it_lib in zip(codec.items(spec2), its_lib):
+                    fr = it_spec["frames"]
+                    it_spec["frames"] = fr[1:] + fr[:1]
+                    full = specs.frames_to_array(it_spec["frames"], specs.PER_FRAME[t], specs.PLAIN_HINTS)
+                    if t in ("data3D", "emg"):
+                        it_lib.data[...] = full.reshape(it_lib.data.shape)
+                    elif t == "force3D":
+                        it_lib.application_point[...], it_lib.force[...], it_lib.torque[...] = full[:, 0:3], full[:, 3:6], full[:, 6:9]
+                    else:
+                        it_lib.application_point[...], it_lib.force[...], it_lib.torque[...] = full[:, 0:2], full[:, 2:5], full[:, 5]
+            except (ValueError, TypeError):
+                spec2 = None   # arrays that cannot be written in place (read-only / broadcast views): nothing to check
+            if spec2 is not None and spec2 != spec:
+                ok2, w2 = ctx.must(lambda: specs.lib_write(blk), f"{t}/encode-after-edit", f"encoding a {t} block after an in-place edit of its samples")
+                ref2 = reftdf.encode(spec2)
+                if ok2 and w2 != ref2:
+                    i = next((k for k in range(min(len(w2), len(ref2))) if w2[k] != ref2[k]), min(len(w2), len(ref2)))
+                    ctx.fail(f"{t}/encode-after-edit-differs", f"{t}: written once, its gap pattern then changed in place: the second encoding has {len(w2)} bytes, the layout "
+                                                               f"of what the block holds now has {len(ref2)}; first difference at byte {i}")
     ctx.case(case, specs.n_items(spec) >= 1, labels=codec.class_labels(spec, hints))
 
 
